@@ -16,12 +16,12 @@ TIERS = {
     'quick': {'workers': 8, 'cases': 1000, 'timeout': 600},
     'thorough': {'workers': 16, 'cases': 15000, 'timeout': 3000},
 }
-LAYOUTS = ['blank-lines', 'comment-line', 'trailing-comment', 'block', 'block-header-comment', 'block-inner-blank', 'block-inner-comment', 'block-at-eof-no-newline',
+LAYOUTS = ['blank-lines', 'comment-line', 'trailing-comment', 'comment-with-raw-control-char', 'block', 'block-header-comment', 'block-inner-blank', 'block-inner-comment', 'block-at-eof-no-newline',
            'block-then-flat', 'block-then-block', 'cont-before-eq', 'cont-after-eq', 'no-space-eq', 'tab-eq', 'indented-flat-run', 'multiline-value',
            'no-final-newline', 'block-member-continuation', 'dedent-two-levels']
 REQUIRED_BUCKETS = (['layout:' + l for l in LAYOUTS] + ['stmt:bind', 'stmt:macro', 'stmt:scoped-macro', 'stmt:import', 'stmt:import-as', 'stmt:from', 'stmt:from-as',
                     'stmt:include', 'value:reference', 'value:macro', 'neg:inner-whitespace', 'neg:empty-component', 'neg:misplaced-separator', 'neg:in-reference',
-                    'neg:in-block-header', 'neg:continuation-inside-name', 'neg:spelling-valid-elsewhere-first', 'renderings:3+', 'stmt:keyword-named'])
+                    'neg:in-block-header', 'neg:in-import', 'neg:continuation-inside-name', 'neg:spelling-valid-elsewhere-first', 'renderings:3+', 'stmt:keyword-named'])
 ORACLE_COUNTERS = ['oracle_evals', 'streams_compared', 'renderings_parsed', 'negatives_rejected']
 
 NEGATIVES = [
@@ -43,6 +43,11 @@ NEGATIVES = [
     ('neg:spelling-valid-elsewhere-first', 'c3f.y = [%p.q/m, 1]\nc3f.x = 2\np.q/m = 5'), ('neg:spelling-valid-elsewhere-first', 'a/c3mac = 2\nfrom a/c3mac import x'),
     ('neg:in-block-header', 'a /c3f:\n  x = 1\n'), ('neg:in-block-header', 'a//c3f:\n  x = 1\n'), ('neg:in-block-header', 'c3. m.c3f:\n  x = 1\n'),
     ('neg:in-block-header', 'a/c3f.:\n  x = 1\n'), ('neg:in-block-header', '/c3f:\n  x = 1\n'),
+    # the four import forms take a dotted module, a single imported name and a single alias
+    ('neg:in-import', 'from os import path.sep'), ('neg:in-import', 'from os import path.sep as d'), ('neg:in-import', 'import os as a.b'), ('neg:in-import', 'import os.'),
+    ('neg:in-import', 'import .os'), ('neg:in-import', 'from os. import path'), ('neg:in-import', 'import os. path'), ('neg:in-import', 'import os /path'),
+    ('neg:in-import', 'import os..path'), ('neg:in-import', 'from os import path as a/b'), ('neg:in-import', 'from os/x import path'), ('neg:in-import', 'import os as a b'),
+    ('neg:in-import', 'from os import path sep'), ('neg:in-import', 'from xml import etree.ElementTree  # comment'),
 ]
 
 
@@ -151,6 +156,13 @@ def render(stmts, seed, with_includes=True):
     used.add('cont-after-eq')
     return ' = \\\n   '
 
+  def ctl():
+    # a comment may contain characters that str.splitlines() treats as line boundaries; to the parser they are ordinary characters
+    if rng.random() < 0.25:
+      used.add('comment-with-raw-control-char')
+      return rng.choice(gen.RAW_CONTROL) + 'tail_macro = 7'
+    return ''
+
   def filler(ind):
     for _ in range(rng.choice([0, 0, 0, 1, 2])):
       if rng.random() < 0.5:
@@ -158,12 +170,12 @@ def render(stmts, seed, with_includes=True):
         lines.append(rng.choice(['', '', '   ']))
       else:
         used.add('comment-line')
-        lines.append(' ' * rng.choice([0, ind, 7]) + '# comment: x.y = [1, (\n'.rstrip('\n'))
+        lines.append(' ' * rng.choice([0, ind, 7]) + '# comment: x.y = [1, (\n'.rstrip('\n') + ctl())
 
   def trailing():
     if rng.random() < 0.2:
       used.add('trailing-comment')
-      return '  # trailing = 3'
+      return '  # trailing = 3' + ctl()
     return ''
 
   def emit(text, ind):
@@ -202,7 +214,7 @@ def render(stmts, seed, with_includes=True):
               lines.append('')
             else:
               used.add('block-inner-comment')
-              lines.append(' ' * rng.choice([0, mind, ind]) + '# inner comment')
+              lines.append(' ' * rng.choice([0, mind, ind]) + '# inner comment' + ctl())
           e = eq()
           if '\\' in e:
             used.add('block-member-continuation')
